@@ -146,6 +146,15 @@ class Ctx(object):
         if z3.is_false(cond):
             return False
         tag = tag or self.where
+        if getattr(self, 'no_branch', False):
+            # inside the evaluation of an expression for a GENERIC element (comprehensions evaluated once): a path split here would
+            # fix the condition for ALL elements at once - only a condition decided by the path condition may be used
+            t_ok, f_ok = self.feasible(cond), self.feasible(z3.Not(cond))
+            if t_ok and not f_ok:
+                return True
+            if f_ok and not t_ok:
+                return False
+            raise Undecided('a condition about the generic element of a comprehension would split the path (%s)' % tag)
         if self.pos < len(self.decisions):
             d = self.decisions[self.pos]
             c = d[0]
@@ -599,6 +608,9 @@ class Interp(object):
 
     def ex_IfExp(self, e, fr):
         c = self.truth(self.eval(e.test, fr))
+        if getattr(self.ctx, 'no_branch', False) and not isinstance(c, bool):
+            from .seqs import ite_v
+            return ite_v(c, self.eval(e.body, fr), self.eval(e.orelse, fr))      # (both arms evaluated: generic-element mode)
         if self.ctx.branch(c, 'ifexp:%d' % e.lineno):
             return self.eval(e.body, fr)
         return self.eval(e.orelse, fr)
@@ -606,6 +618,14 @@ class Interp(object):
     def ex_BoolOp(self, e, fr):
         # short circuit, value-returning semantics restricted to boolean use
         isand = isinstance(e.op, ast.And)
+        if getattr(self.ctx, 'no_branch', False):
+            # generic-element mode: all operands are evaluated and combined (no short circuit: an operand that could raise only when an
+            # earlier one decides otherwise makes the evaluation raise here - an over-approximation)
+            cs = []
+            for x in e.values:
+                c = self.truth(self.eval(x, fr))
+                cs.append(z3.BoolVal(c) if isinstance(c, bool) else c)
+            return VBool(z3.And(*cs) if isand else z3.Or(*cs))
         last = None
         for i, x in enumerate(e.values):
             v = self.eval(x, fr)
